@@ -95,6 +95,7 @@ class PathRun:
         self.boxes = {}
         self.no_fork = 0
         self.safe_seen = set()
+        self.skip_kinds = set()
 
     # ---- symbols ---------------------------------------------------------
     def fresh(self, name, sort=Val):
@@ -203,6 +204,8 @@ class PathRun:
 
     # ---- obligations -------------------------------------------------------
     def oblige(self, name, goal, kind='assert', lineno=None, props=(), info=None):
+        if kind in self.skip_kinds:
+            return
         g = sym.simp(goal) if not z3.is_quantifier(goal) else goal
         if z3.is_true(g):
             self.eng.trivial += 1
